@@ -365,7 +365,20 @@ type httpCfg struct {
 
 var httpSeq int
 
-var httpListings = [][]string{{"alpha", "Beta"}, {"alpha", "gamma"}, {"delta"}}
+// "pixel-vision" and "text-embedding-x" are names the openai-compatible profile's capability patterns class as a vision
+// and an embeddings model: requests that need such a capability are sent between the judged ones (see interlude)
+var httpListings = [][]string{{"alpha", "Beta", "pixel-vision"}, {"alpha", "gamma", "text-embedding-x"}, {"delta"}}
+
+// interlude: requests of other shapes — a picture in the content, a tools array, an embeddings input — for models that
+// have the capability, sent on the same running stack between the judged requests and not judged themselves (which
+// endpoints may serve a request that needs a capability is not C09's subject).  What they needed must not matter to the
+// plain request that follows: C09 routes a request by the model IT names.
+var interludes = []string{
+	`{"model":"pixel-vision","messages":[{"role":"user","content":[{"type":"text","text":"what is this"},{"type":"image_url","image_url":{"url":"data:image/png;base64,AAAA"}}]}]}`,
+	`{"model":"text-embedding-x","input":"hello"}`,
+	`{"model":"alpha","messages":[{"role":"user","content":"hi"}],"tools":[{"type":"function","function":{"name":"f","parameters":{"type":"object"}}}]}`,
+	`{"model":"pixel-vision","messages":[{"role":"user","content":"write a function"}],"tools":[{"type":"function","function":{"name":"g"}}]}`,
+}
 var httpSpellings = []string{"alpha", "ALPHA", "Beta", "beta", "gamma", "delta", "alpha:latest", "nope"}
 var httpHealth = []int{0b111, 0b011, 0b100, 0b101, 0b000}
 
@@ -523,6 +536,17 @@ func runHTTPOnce(c *vlib.Cases, hc httpCfg, mu *sync.Mutex, last bool) bool {
 				// every other request is sent with Transfer-Encoding: chunked (no declared length): the model named in
 				// the body must be routed the same way however the body is framed
 				httpSeq++
+				if httpSeq%3 == 0 {
+					il := interludes[(httpSeq/3)%len(interludes)]
+					ip := "/olla/proxy/v1/chat/completions"
+					if strings.Contains(il, `"input"`) {
+						ip = "/olla/proxy/v1/embeddings"
+					}
+					stack.Do(s.Addr, stack.Request("POST", ip, s.Addr, [][2]string{{"Content-Type", "application/json"}}, []byte(il), false), 5*time.Second)
+					for _, b := range bes {
+						b.Taken()
+					}
+				}
 				r := stack.Do(s.Addr, stack.Request("POST", path, s.Addr, [][2]string{{"Content-Type", "application/json"}}, body, httpSeq%2 == 0), 5*time.Second)
 				backend := -1
 				nb := 0
